@@ -41,3 +41,11 @@ func VerifInotifyTables(w *Watcher) (wd map[uint32]string, path map[string]uint3
 func VerifInotifyNewEvent(name string, mask, cookie uint32) Event {
 	return (&inotify{}).newEvent(name, mask, cookie)
 }
+
+// VerifInotifyRenamePair feeds a MOVED_FROM/MOVED_TO pair with one cookie
+// through the mask translation of one fresh backend and returns the Create.
+func VerifInotifyRenamePair(oldName, newName string) Event {
+	b := &inotify{}
+	b.newEvent(oldName, 0x40, 4242) // IN_MOVED_FROM
+	return b.newEvent(newName, 0x80, 4242)
+}
